@@ -19,20 +19,34 @@
   this leaves (`C06_loss_keeps_hypotheses`, `C06_destroyed_after_loss_clean_partial`,
   `C06_failed_create_after_loss_clean_partial`).
 
-  Three statements do NOT hold of the code as it is. They are kept visible as
-  `…_full`, proved under the hypothesis that excludes the offending inputs /
-  schedules, and refuted on a witness the real core was seen to follow:
-    * destroy_hooks_unreleased — TeardownEnvironment overwrites its second
-      ReleaseTasks message in every iteration of the loop over the DESTROY
-      weights, and only names hook tasks whose role is ACTIVE;
+  A state carries the configuration it runs under (`Own.Cfg`): `codeCfg` is the code
+  as it is, `legacyCfg` the code before the repairs notes/C06.fix-1 and C06.fix-2
+  (and C04.fix-1). `…_code` theorems are about `codeCfg`, the refutations of the two
+  fixed findings about `legacyCfg`, `…_partial` theorems about every configuration.
+
+  One statement does NOT hold of the code as it is. It is kept visible as `…_full`,
+  proved under the hypothesis that excludes the offending inputs, and refuted on a
+  witness the real core was seen to follow:
     * launch_pending_leak — doKillTasks only KILLs tasks whose status is ACTIVE;
       a task that was launched but has not yet reported TASK_RUNNING when its
-      deployment is given up is dropped from the roster and keeps running;
-    * teardown_registration_race — the event loop deletes the pending-teardown
-      entry after handing the event over, possibly after TeardownEnvironment
-      registered the entry for its second release: the call then waits for ever.
+      deployment is given up is dropped from the roster and keeps running
+      (hypothesis `statusFaithful` of the clean-up theorems).
+  Two statements did not hold and do now (findings fixed):
+    * destroy_hooks_unreleased — TeardownEnvironment overwrote its second
+      ReleaseTasks message in every iteration of the loop over the DESTROY
+      weights, and only named hook tasks whose role was ACTIVE. Now the hook tasks of
+      all weights are released together: `C06_destroyed_clean_code`,
+      `C06_failed_create_clean_code` (+ the two `…_after_loss_clean_code`) need no
+      hook hypothesis; tie `C06_hook_release_is_code`;
+    * teardown_registration_race — the event loop deleted the pending-teardown
+      entry after handing the event over, possibly after TeardownEnvironment had
+      registered the entry for its second release: the call then waited for ever. Now
+      the entry is removed in the critical section that looks it up:
+      `C06_teardown_returns_code`, `C06_teardown_never_hangs_code`; tie
+      `C06_rendezvous_is_code`.
 -/
 import ControlModel.Proofs.Own
+import ControlModel.Gen.C06Facts
 
 open Own
 
@@ -53,37 +67,56 @@ theorem C06_destroy_unknown_is_error (s : State) (k : EnvId) (force allow keep :
     simp only [List.any_eq_false, decide_eq_true_eq]; exact h1
   simp [destroy, this, h]
 
-/-- The full-strength claim: whenever DestroyEnvironment answers success the environment is clean. -/
-def C06_destroyed_clean_full : Prop :=
-  ∀ (s : State) (k : EnvId) (force allow keep : Bool) (o : DOracle) (E : Env),
+/-- The full-strength claim: whenever DestroyEnvironment answers success the environment is clean
+    (configuration `c`). It still fails for the code as it is, for the reason of finding
+    launch_pending_leak alone (`C06_destroyed_clean_needs_faithful`). -/
+def C06_destroyed_clean_full (c : Cfg) : Prop :=
+  ∀ (s : State) (k : EnvId) (force allow keep : Bool) (o : DOracle) (E : Env), s.cfg = c →
     s.env? k = some E → envWf s k E.tasks = true → (∀ h ∈ E.hooks, h.task ∈ E.tasks) →
     (destroy s k force allow keep o).2.1 = .ok →
     cleanAfter k keep (viewOf (destroy s k force allow keep o).1) = true
 
+/-- The same claim for the states in which a task the core believes inactive has really ended
+    (`statusFaithful`, the hypothesis of the open finding launch_pending_leak) — with NO
+    hypothesis about the DESTROY hooks: the part of the full claim that finding
+    destroy_hooks_unreleased refuted. -/
+def C06_destroyed_clean_hooks_full (c : Cfg) : Prop :=
+  ∀ (s : State) (k : EnvId) (force allow keep : Bool) (o : DOracle) (E : Env), s.cfg = c →
+    s.env? k = some E → envWf s k E.tasks = true → (∀ h ∈ E.hooks, h.task ∈ E.tasks) →
+    statusFaithful s E.tasks = true →
+    (destroy s k force allow keep o).2.1 = .ok →
+    cleanAfter k keep (viewOf (destroy s k force allow keep o).1) = true
+
 /-- **After a destroy that answered success the environment is clean** (`cleanAfter`): not
-    listed, none of its tasks still owned by it, every task launched for it sent a KILL or
+    listed, none of its tasks still owned by it — DESTROY / after_DESTROY hook tasks at any
+    number of weights, ACTIVE or not, included —, every task launched for it sent a KILL or
     ended (unless the caller asked to keep tasks), every active detector held by a listed
-    environment, its pending calls cancelled — in every state (force or not, from any
-    environment state, whichever of STOP / RESET / the first teardown attempt failed, with
-    any oracle) whose bookkeeping is well-formed (`envWf`), provided
-      * `hooksReleasable` : its DESTROY hooks sit at one weight at most and are ACTIVE, and
+    environment, its pending calls cancelled — the code as it is, in every state (force or
+    not, from any environment state, whichever of STOP / RESET / the first teardown attempt
+    failed, with any oracle) whose bookkeeping is well-formed (`envWf`), provided
       * `statusFaithful`  : a task of it that the core believes inactive has really ended. -/
+theorem C06_destroyed_clean_code : C06_destroyed_clean_hooks_full codeCfg := by
+  intro s k force allow keep o E hc hE hwf hhk hfaith hok
+  exact destroy_clean s k force allow keep o E hE hwf hfaith (by simp [hooksOk, hc, codeCfg]) hhk hok
+
+/-- The same in every configuration (the code as it was included), provided also
+      * `hooksReleasable` : its DESTROY hooks sit at one weight at most and are ACTIVE. -/
 theorem C06_destroyed_clean_partial (s : State) (k : EnvId) (force allow keep : Bool) (o : DOracle) (E : Env)
     (hE : s.env? k = some E) (hwf : envWf s k E.tasks = true) (hhk : ∀ h ∈ E.hooks, h.task ∈ E.tasks)
     (hrel : hooksReleasable s E.hooks = true) (hfaith : statusFaithful s E.tasks = true)
     (hok : (destroy s k force allow keep o).2.1 = .ok) :
     cleanAfter k keep (viewOf (destroy s k force allow keep o).1) = true :=
-  destroy_clean s k force allow keep o E hE hwf hfaith hrel hhk hok
+  destroy_clean s k force allow keep o E hE hwf hfaith (by simp [hooksOk, hrel]) hhk hok
 
-/-! ### finding destroy_hooks_unreleased -/
+/-! ### finding destroy_hooks_unreleased (fixed) -/
 
 /-- One task and two DESTROY hook tasks, at weights 10 and 20. -/
 def hooks2Spec : EnvSpec :=
   { bad := .ok, dets := [0], roles := [{ kind := .task, cls := 1, host := 1 },
       { kind := .hook, cls := 2, host := 1, weight := 10 }, { kind := .hook, cls := 3, host := 2, weight := 20 }] }
 
-def hooks2State : State :=
-  run (init false [1, 2, 3, 4]) [.createBegin 0 hooks2Spec, .createCleanup 0, .createInsert 0, .createSettle 0 {}]
+def hooks2State (c : Cfg := codeCfg) : State :=
+  run (init false [1, 2, 3, 4] c) [.createBegin 0 hooks2Spec, .createCleanup 0, .createInsert 0, .createSettle 0 {}]
 
 /-- The environment as listed in `hooks2State`. -/
 def hooks2Env : Env :=
@@ -91,20 +124,50 @@ def hooks2Env : Env :=
     hooks := [{ task := 2, weight := 10, after := false }, { task := 3, weight := 20, after := false }],
     calls := 0, pending := 0, started := 0, cancelled := 0, tearing := false }
 
-/-- **Finding destroy_hooks_unreleased**: a plain destroy of a freshly created environment with
-    DESTROY hooks at two weights answers success and leaves the weight-10 hook task locked by
-    the deleted environment (never released, hence never killed: KillTasks and Cleanup skip
-    locked tasks). -/
-theorem C06_finding_destroy_hooks_unreleased : ¬ C06_destroyed_clean_full := by
+/-- **Finding destroy_hooks_unreleased** (fixed; a statement about the code as it was): a plain
+    destroy of a freshly created environment with DESTROY hooks at two weights answered success
+    and left the weight-10 hook task locked by the deleted environment (never released, hence
+    never killed: KillTasks and Cleanup skip locked tasks). -/
+theorem C06_finding_destroy_hooks_unreleased : ¬ C06_destroyed_clean_hooks_full legacyCfg := by
   intro h
-  have := h hooks2State 0 false false false {} hooks2Env (by decide) (by decide) (by decide) (by decide)
+  have := h (hooks2State legacyCfg) 0 false false false {} hooks2Env (by decide) (by decide) (by decide) (by decide) (by decide) (by decide)
   revert this
   decide
 
 /-- The witness violates exactly the hook hypothesis (its status is faithful). -/
 theorem C06_hooks_witness_hypotheses :
-    hooksReleasable hooks2State [{ task := 2, weight := 10, after := false }, { task := 3, weight := 20, after := false }] = false ∧
-    statusFaithful hooks2State [1, 2, 3] = true := by decide
+    hooksReleasable (hooks2State legacyCfg) [{ task := 2, weight := 10, after := false }, { task := 3, weight := 20, after := false }] = false ∧
+    statusFaithful (hooks2State legacyCfg) [1, 2, 3] = true := by decide
+
+/-- On the same input the code as it is releases both hook tasks: the destroy answers success,
+    its second ReleaseTasks message names tasks 2 and 3, and the roster holds nothing any more. -/
+theorem C06_hooks_witness_repaired :
+    (hooks2State).env? 0 = some hooks2Env ∧
+    (destroy hooks2State 0 false false false {}).2.1 = .ok ∧
+    (destroy hooks2State 0 false false false {}).2.2.getLast? = some (.release [2, 3]) ∧
+    (viewOf (destroy hooks2State 0 false false false {}).1).roster = [] ∧
+    cleanAfter 0 false (viewOf (destroy hooks2State 0 false false false {}).1) = true := by decide
+
+/-- A listed environment whose task the core believes inactive while it is running. -/
+def unfaithfulState : State :=
+  { reuse := false, hosts := [1],
+    roster := [{ id := 1, cls := 1, host := 1, agent := true, offer := true, executor := true, parent := some 0,
+                 active := false, state := .STANDBY }],
+    envs := [{ id := 0, state := .DEPLOYED, dets := [0], tasks := [1], hooks := [], pending := 0, tearing := false }],
+    master := [{ id := 1, label := 0, role := 0, host := 1, mesos := .running, killed := false }],
+    used := [0], nextTask := 2 }
+
+/-- `statusFaithful` cannot be dropped from `C06_destroyed_clean_code`: in a (constructed) state
+    that violates it the destroy answers success, drops the task from the roster without a KILL
+    (doKillTasks only KILLs ACTIVE tasks) and leaves it running. This is the mechanism of the
+    open finding launch_pending_leak, whose reachable witness is `leakSchedule` below. -/
+theorem C06_destroyed_clean_needs_faithful : ¬ C06_destroyed_clean_full codeCfg := by
+  intro h
+  have := h unfaithfulState 0 false false false {}
+    { id := 0, state := .DEPLOYED, dets := [0], tasks := [1], hooks := [], pending := 0, tearing := false }
+    (by decide) (by decide) (by decide) (by decide) (by decide)
+  revert this
+  decide
 
 /-! ## a creation that fails -/
 
@@ -124,23 +187,44 @@ theorem C06_failed_create_detector (s : State) (k : EnvId) (spec : EnvSpec) (o :
   create_conflict_fields s k spec o hfresh hok hconf
 
 /-- The full-strength claim for the failure tail of CreateEnvironment (deployment or
-    configuration failed: GO_ERROR, forced teardown, KillTasks): unless it hangs, it leaves
-    the environment clean. -/
-def C06_failed_create_clean_full : Prop :=
-  ∀ (s : State) (k : EnvId) (late : Bool) (res : Res) (hf : List TaskId) (E : Env),
+    configuration failed: GO_ERROR, forced teardown, KillTasks): it returns and leaves the
+    environment clean. `res`: the error the creation answers with. -/
+def C06_failed_create_clean_full (c : Cfg) : Prop :=
+  ∀ (s : State) (k : EnvId) (late : Bool) (res : Res) (hf : List TaskId) (E : Env), s.cfg = c →
     s.env? k = some E → E.tearing = false → envWf s k E.tasks = true → (∀ h ∈ E.hooks, h.task ∈ E.tasks) →
-    (createFail s k E.tasks late res hf).2 ≠ .hang →
+    res ≠ .hang →
+    (createFail s k E.tasks late res hf).2 ≠ .hang ∧
     cleanAfter k false (viewOf (createFail s k E.tasks late res hf).1) = true
 
-/-- **The failure tail of a creation (deployment or configuration failed) leaves the
-    environment clean** unless it hangs, under the same two hypotheses as a destroy. -/
+/-- The same for the states satisfying `statusFaithful` (hypothesis of the open finding
+    launch_pending_leak), with no hypothesis about hooks or the rendezvous: the part of the full
+    claim that the findings destroy_hooks_unreleased and teardown_registration_race refuted. -/
+def C06_failed_create_clean_hooks_full (c : Cfg) : Prop :=
+  ∀ (s : State) (k : EnvId) (late : Bool) (res : Res) (hf : List TaskId) (E : Env), s.cfg = c →
+    s.env? k = some E → E.tearing = false → envWf s k E.tasks = true → (∀ h ∈ E.hooks, h.task ∈ E.tasks) →
+    statusFaithful s E.tasks = true → res ≠ .hang →
+    (createFail s k E.tasks late res hf).2 ≠ .hang ∧
+    cleanAfter k false (viewOf (createFail s k E.tasks late res hf).1) = true
+
+/-- **The failure tail of a creation (deployment or configuration failed) returns and leaves
+    the environment clean** — the code as it is, whatever the DESTROY hooks and whatever the
+    oracle of the rendezvous says, under `statusFaithful` alone. -/
+theorem C06_failed_create_clean_code : C06_failed_create_clean_hooks_full codeCfg := by
+  intro s k late res hf E hc hE hte hwf hhk hfaith hres
+  have hnh : (createFail s k E.tasks late res hf).2 ≠ .hang :=
+    createFail_not_hang s k E.tasks late res hf
+      (by intro E' hE'; rw [hE] at hE'; injection hE' with hE'; subst hE'; exact hte) (by simp [hc, codeCfg]) hres
+  exact ⟨hnh, createFail_clean s k late res hf E hE hte hwf hhk (by simp [hooksOk, hc, codeCfg]) hfaith hnh⟩
+
+/-- In every configuration: the failure tail leaves the environment clean unless it hangs,
+    under the two hypotheses of `C06_destroyed_clean_partial`. -/
 theorem C06_failed_create_clean_partial (s : State) (k : EnvId) (late : Bool) (res : Res) (hf : List TaskId) (E : Env)
     (hE : s.env? k = some E) (hte : E.tearing = false) (hwf : envWf s k E.tasks = true)
     (hhk : ∀ h ∈ E.hooks, h.task ∈ E.tasks)
     (hrel : hooksReleasable s E.hooks = true) (hfaith : statusFaithful s E.tasks = true)
     (hnh : (createFail s k E.tasks late res hf).2 ≠ .hang) :
     cleanAfter k false (viewOf (createFail s k E.tasks late res hf).1) = true :=
-  createFail_clean s k late res hf E hE hte hwf hhk hrel hfaith hnh
+  createFail_clean s k late res hf E hE hte hwf hhk (by simp [hooksOk, hrel]) hfaith hnh
 
 /-! ### finding launch_pending_leak -/
 
@@ -153,8 +237,9 @@ def leakSchedule : List Step :=
    .createSettle 0 { launches := [(0, { mesos := .terminal, active := false }), (1, { mesos := .staging, active := false })] },
    .mesosStart 0]
 
-/-- The full-strength claim over whole runs: after any step sequence, an environment that is no
-    longer listed and not being created has left no task running unknown to the core. -/
+/-- The full-strength claim over whole runs of the code as it is: after any step sequence, an
+    environment that is no longer listed and not being created has left no task running unknown
+    to the core. -/
 def C06_no_leak_full : Prop :=
   ∀ (steps : List Step) (k : EnvId), k ∈ (run (init false [1, 2, 3, 4]) steps).used →
     (∀ E ∈ (run (init false [1, 2, 3, 4]) steps).envs, E.id ≠ k) →
@@ -201,10 +286,40 @@ theorem C06_loss_keeps_hypotheses (s : State) (steps : List Step) (hl : steps.al
   lossKeeps_run steps hl s k tasks hooks h
 
 /-- **After a destroy that answered success the environment is clean, also when executors or
-    agents of its tasks were lost before** (and its watcher took it to ERROR or not): same
-    statement and hypotheses as `C06_destroyed_clean_partial`, stated on the state before the
-    losses, plus `hostsAgree`; only the hook hypothesis has to hold at the destroy (a lost
-    DESTROY hook task is no longer ACTIVE: that is finding destroy_hooks_unreleased again). -/
+    agents of its tasks were lost before** (and its watcher took it to ERROR or not) — the code
+    as it is: same statement as `C06_destroyed_clean_code`, hypotheses stated on the state
+    before the losses, plus `hostsAgree`. A lost DESTROY hook task is no longer ACTIVE and is
+    released all the same. -/
+theorem C06_destroyed_after_loss_clean_code (s : State) (hc : s.cfg = codeCfg) (steps : List Step)
+    (hl : steps.all Step.isLoss = true)
+    (k : EnvId) (force allow keep : Bool) (o : DOracle) (E : Env)
+    (hE : s.env? k = some E) (hte : E.tearing = false) (hwf : envWf s k E.tasks = true) (hag : hostsAgree s E.tasks = true)
+    (hfaith : statusFaithful s E.tasks = true) (hhk : ∀ h ∈ E.hooks, h.task ∈ E.tasks)
+    (hok : (destroy (run s steps) k force allow keep o).2.1 = .ok) :
+    cleanAfter k keep (viewOf (destroy (run s steps) k force allow keep o).1) = true :=
+  destroy_after_loss_clean s steps hl k force allow keep o E hE hte hwf hag hfaith hhk
+    (by simp [hooksOk, run_loss_cfg steps hl s, hc, codeCfg]) hok
+
+/-- The same for the failure tail of a creation, which also returns. -/
+theorem C06_failed_create_after_loss_clean_code (s : State) (hc : s.cfg = codeCfg) (steps : List Step)
+    (hl : steps.all Step.isLoss = true)
+    (k : EnvId) (late : Bool) (res : Res) (hf : List TaskId) (E : Env)
+    (hE : s.env? k = some E) (hte : E.tearing = false) (hwf : envWf s k E.tasks = true) (hag : hostsAgree s E.tasks = true)
+    (hfaith : statusFaithful s E.tasks = true) (hhk : ∀ h ∈ E.hooks, h.task ∈ E.tasks) (hres : res ≠ .hang) :
+    (createFail (run s steps) k E.tasks late res hf).2 ≠ .hang ∧
+    cleanAfter k false (viewOf (createFail (run s steps) k E.tasks late res hf).1) = true := by
+  have hcfg : (run s steps).cfg = codeCfg := (run_loss_cfg steps hl s).trans hc
+  have hk := C06_loss_keeps_hypotheses s steps hl k E.tasks E.hooks ⟨⟨E, hE, rfl, rfl, hte⟩, hwf, hag, hfaith⟩
+  have hnh : (createFail (run s steps) k E.tasks late res hf).2 ≠ .hang := by
+    apply createFail_not_hang _ k E.tasks late res hf _ (by simp [hcfg, codeCfg]) hres
+    intro E' hE'
+    obtain ⟨E1, hE1, _, _, c⟩ := hk.listed
+    rw [hE1] at hE'; injection hE' with hE'; subst hE'; exact c
+  exact ⟨hnh, createFail_after_loss_clean s steps hl k late res hf E hE hte hwf hag hfaith hhk
+    (by simp [hooksOk, hcfg, codeCfg]) hnh⟩
+
+/-- In every configuration, with the hook hypothesis at the destroy (a lost DESTROY hook task
+    is no longer ACTIVE: in the legacy configuration that was finding destroy_hooks_unreleased again). -/
 theorem C06_destroyed_after_loss_clean_partial (s : State) (steps : List Step) (hl : steps.all Step.isLoss = true)
     (k : EnvId) (force allow keep : Bool) (o : DOracle) (E : Env)
     (hE : s.env? k = some E) (hte : E.tearing = false) (hwf : envWf s k E.tasks = true) (hag : hostsAgree s E.tasks = true)
@@ -212,7 +327,7 @@ theorem C06_destroyed_after_loss_clean_partial (s : State) (steps : List Step) (
     (hrel : hooksReleasable (run s steps) E.hooks = true)
     (hok : (destroy (run s steps) k force allow keep o).2.1 = .ok) :
     cleanAfter k keep (viewOf (destroy (run s steps) k force allow keep o).1) = true :=
-  destroy_after_loss_clean s steps hl k force allow keep o E hE hte hwf hag hfaith hhk hrel hok
+  destroy_after_loss_clean s steps hl k force allow keep o E hE hte hwf hag hfaith hhk (by simp [hooksOk, hrel]) hok
 
 /-- The same for the failure tail of a creation. -/
 theorem C06_failed_create_after_loss_clean_partial (s : State) (steps : List Step) (hl : steps.all Step.isLoss = true)
@@ -222,7 +337,7 @@ theorem C06_failed_create_after_loss_clean_partial (s : State) (steps : List Ste
     (hrel : hooksReleasable (run s steps) E.hooks = true)
     (hnh : (createFail (run s steps) k E.tasks late res hf).2 ≠ .hang) :
     cleanAfter k false (viewOf (createFail (run s steps) k E.tasks late res hf).1) = true :=
-  createFail_after_loss_clean s steps hl k late res hf E hE hte hwf hag hfaith hhk hrel hnh
+  createFail_after_loss_clean s steps hl k late res hf E hE hte hwf hag hfaith hhk (by simp [hooksOk, hrel]) hnh
 
 /-- Two tasks on hosts 1 and 2, created and configured. -/
 def lossSpec : EnvSpec :=
@@ -272,48 +387,57 @@ theorem C06_destroy_hooks_after_release (s : State) (k : EnvId) (force late : Bo
 
 /-! ## the rendezvous between TeardownEnvironment and the event loop -/
 
-/-- The full-strength liveness claim: every maximal schedule of the rendezvous ends with
-    TeardownEnvironment returned. -/
-def C06_teardown_returns_full : Prop :=
-  ∀ st ∈ Rdv.reach false 12 [{}], Rdv.stuck false st = true → Rdv.done st = true
+/-- The full-strength liveness claim: every maximal schedule of the rendezvous, as configuration
+    `c` runs it, ends with TeardownEnvironment returned. -/
+def C06_teardown_returns_full (c : Cfg) : Prop :=
+  ∀ st ∈ Rdv.reach (Rdv.atomicOf c) 12 [{}], Rdv.stuck (Rdv.atomicOf c) st = true → Rdv.done st = true
 
-/-- **Finding teardown_registration_race**: the schedule register · send · recv · handoff ·
-    *register* · delete · send · recv is a run of the code (the loop's `delete` falls after
-    TeardownEnvironment's second `register`); it ends with the second event dropped and
-    TeardownEnvironment waiting for ever at its second `<-pendingCh`. -/
-theorem C06_finding_teardown_registration_race : ¬ C06_teardown_returns_full := by
+/-- **Every maximal schedule of the rendezvous ends with TeardownEnvironment returned** — the
+    code as it is: the event loop takes the entry out of the map in the critical section that
+    looked it up, so the only entry it ever removes is the one it hands the event to (all
+    reachable states of the protocol, enumerated in the kernel). -/
+theorem C06_teardown_returns_code : C06_teardown_returns_full codeCfg := by
+  unfold C06_teardown_returns_full
+  decide
+
+/-- **Finding teardown_registration_race** (fixed; a statement about the code as it was): the
+    schedule register · send · recv · handoff · *register* · delete · send · recv was a run of
+    the code (the loop's `delete` fell after TeardownEnvironment's second `register`); it ended
+    with the second event dropped and TeardownEnvironment waiting for ever at its second
+    `<-pendingCh`. -/
+theorem C06_finding_teardown_registration_race : ¬ C06_teardown_returns_full legacyCfg := by
   intro h
   have hrun : Rdv.run false {} [.register, .send, .recv, .handoff, .register, .delete, .send, .recv] =
       some { entry := none, nextCh := 3, queue := 0, loop := .idle, td := 5, waitCh := 2 } := by decide
-  have hmem : ({ entry := none, nextCh := 3, queue := 0, loop := .idle, td := 5, waitCh := 2 } : Rdv.St) ∈ Rdv.reach false 12 [{}] := by decide
+  have hmem : ({ entry := none, nextCh := 3, queue := 0, loop := .idle, td := 5, waitCh := 2 } : Rdv.St) ∈
+      Rdv.reach (Rdv.atomicOf legacyCfg) 12 [{}] := by decide
   have := h _ hmem (by decide)
   revert this
   decide
 
-/-- With the entry taken out of the map in the critical section that looked it up (the
-    proposed repair), every maximal schedule ends with TeardownEnvironment returned
-    (all reachable states of the repaired protocol, enumerated). -/
-theorem C06_teardown_returns_repaired :
-    ∀ st ∈ Rdv.reach true 12 [{}], Rdv.stuck true st = true → Rdv.done st = true := by decide
+/-- **The model's event loop is the code's**: go/ast of core/environment/manager.go, `case
+    *event.TasksReleasedEvent`, finds the one lookup of pendingTeardownsCh between `mu.Lock()`
+    and the next `mu.Unlock()`, the one `delete(pendingTeardownsCh, …)` of the clause inside that
+    section, and no channel send inside it. Reverting notes/C06.fix-1.patch breaks this theorem. -/
+theorem C06_rendezvous_is_code : codeCfg.lateDelete = !Gen.entryRemovedInLookupSection ∧
+    Rdv.atomicOf codeCfg = Gen.entryRemovedInLookupSection ∧ Gen.rendezvousCounts = (1, 1, 1, 0, true) := by decide
 
-/-- In the main model the race is the oracle `late`: without it a teardown never answers "hang"
-    unless an earlier one already hung in the same environment. -/
+/-- **The model's second ReleaseTasks message is the code's**: go/ast of TeardownEnvironment
+    finds `taskmanMessage` re-assigned once, outside every loop, from a list that is only ever
+    appended to with the unfiltered `FilterTasks()` of a weight. Reverting notes/C06.fix-2.patch
+    breaks this theorem. -/
+theorem C06_hook_release_is_code : codeCfg.lastWeightOnly = !Gen.hookReleaseAllWeights ∧
+    Gen.hookReleaseCounts = (1, 0) := by decide
+
+/-- **In the main model a teardown of the code as it is never answers "hang"**, whatever the
+    oracle `late` says, unless an earlier one already hung in the same environment (which, by
+    this very theorem, no run of `codeCfg` produces). -/
+theorem C06_teardown_never_hangs_code (s : State) (hc : s.cfg = codeCfg) (k : EnvId) (force late : Bool) (hf : List TaskId)
+    (h : ∀ E ∈ s.envs, E.tearing = false) : (teardown s k force late hf).2.1 ≠ .hang :=
+  teardown_not_hang s k force late hf (fun E hE => h E (env?_some hE).1) (by simp [hc, codeCfg])
+
+/-- In every configuration the race is the oracle `late`: without it a teardown never answers
+    "hang" unless an earlier one already hung in the same environment. -/
 theorem C06_teardown_returns_partial (s : State) (k : EnvId) (force : Bool) (hf : List TaskId)
-    (h : ∀ E ∈ s.envs, E.tearing = false) : (teardown s k force false hf).2.1 ≠ .hang := by
-  unfold teardown
-  split
-  · simp
-  · rename_i E hE
-    have := h E (env?_some hE).1
-    simp only [this, Bool.false_eq_true, if_false]
-    split
-    · simp
-    split
-    · simp
-    split
-    · simp
-    · unfold tdFinish
-      simp only [Bool.false_eq_true, if_false]
-      split
-      · simp
-      · split <;> simp
+    (h : ∀ E ∈ s.envs, E.tearing = false) : (teardown s k force false hf).2.1 ≠ .hang :=
+  teardown_not_hang s k force false hf (fun E hE => h E (env?_some hE).1) (by simp)
